@@ -164,7 +164,7 @@ def _run_file_order(ctx, nfiles):
                   "the order in which source files are enumerated changes names / identifiers")
 
     E = sym.Engine(ctx, max_paths=60000, incremental=True)
-    found = E.explore(h)
+    found = E.explore(h, on_violation=lambda f: True)  # the first differing order suffices
     # candidates: prefer projects with equally named entities (they change URLs); every candidate is decided by the real runs
     cands = []
     for (label, m, pc), snap in zip(found, E.snapshots):
@@ -285,7 +285,7 @@ def correlate_set_order(ctx):
             E.require(choice.apply(lambda a, b: a == b, ref[1], got[1]), "the order in which a page lists the used modules is the set's iteration order")
 
     E = sym.Engine(ctx, max_paths=60000, incremental=True)
-    found = E.explore(h)
+    found = E.explore(h, on_violation=lambda f: True)  # the first differing order suffices
     seen = set()
     for (label, m, pc), snap in zip(found, E.snapshots):
         if label in seen or not snap:
@@ -310,7 +310,10 @@ GRAPH_FILES = {"a.f90": ["module m1", "type ta", "integer :: i", "end type ta", 
                          "subroutine sa()", "call sb()", "call sc()", "end subroutine sa",
                          "subroutine sb()", "call sc()", "end subroutine sb",
                          "subroutine sc()", "end subroutine sc", "end module m3"],
-               "b.f90": ["program pp", "use m3", "use m1", "call sa()", "call sb()", "end program pp"]}
+               "b.f90": ["program pp", "use m3", "use m1", "call sa()", "call sb()", "end program pp"],
+               # two equally named (equally LABELLED) procedures in different files, both neighbours of m1 and of sc
+               "c.f90": ["subroutine setup()", "use m1", "use m3", "call sc()", "end subroutine setup"],
+               "d.f90": ["subroutine setup()", "use m1", "use m3", "call sc()", "end subroutine setup"]}
 GSET = dict(proc_internals=True, graph=True, display=["public", "private", "protected"])
 
 
@@ -413,7 +416,7 @@ def _graph_ob(group):
         ctx.encode_fn(gr.GraphData.register)
         ctx.stubs.append("`set` in ford.graphs: iteration order is an arbitrary permutation chosen by the solver; graphviz.Digraph replaced "
                          "by a recorder of node()/edge() calls; graphviz_installed=False (no `dot` binary in the sandbox)")
-        ctx.bounds.update({"project": "fixed 2-file project (3 modules, 3 types, 3 procedures, 1 program; every relation has a node with 2 neighbours)",
+        ctx.bounds.update({"project": "fixed 4-file project (3 modules, 3 types, 3 module procedures, 1 program, 2 equally named external procedures; every relation has a node with 2+ neighbours, two of them with equal labels)",
                            "set_elements": permset.MAX_ELEMS})
         obs = _graphs_of(GRAPH_GROUPS[group])
 
@@ -440,7 +443,7 @@ def _graph_ob(group):
                 E.require(a == b, f"{a[0]}: the emitted nodes/edges depend on set iteration order")
 
         E = sym.Engine(ctx, max_paths=100000, incremental=True)
-        found = E.explore(h)
+        found = E.explore(h, on_violation=lambda f: True)  # the first differing order suffices
         seen = set()
         for (label, m, pc), snap in zip(found, E.snapshots):
             if label in seen or not snap:
